@@ -12,6 +12,8 @@ impl BeanFactory<'_> {
         static INSTANCE: AtomicUsize = AtomicUsize::new(0);
         let mut ret = INSTANCE.load(Ordering::Relaxed);
         if ret == 0 {
+            #[cfg(feature = "verif-hooks")]
+            crate::verif::point("bean_factory:creating", 0, 0);
             let ptr: &'i mut BeanFactory = Box::leak(Box::default());
             ret = std::ptr::from_mut(ptr) as usize;
             INSTANCE.store(ret, Ordering::Relaxed);
